@@ -8,7 +8,6 @@ a case.  Every case is rendered into a real gtirb interval / module and run
 through the real functions and through an empty RewritingContext.apply()
 (harness/intervals/runner.py); TLC judges every observed run against the
 Level A clauses (spec/TraceIntervals.tla)."""
-import glob
 import json
 import os
 import time
@@ -33,20 +32,9 @@ PREFIX = "C10_"
 
 
 def load_open_findings(prop: str) -> Dict[str, dict]:
-    """Open findings of this property: known_findings.json, plus entries that
-    still wait next to their reproduction (findings/<ID>/entry.json) to be
-    moved into the shared file."""
-    known = {k["id"]: k for k in core.load_known()
-             if k.get("status") == "open" and prop in k.get("properties", [k["property"]])}
-    for path in sorted(glob.glob(os.path.join(tlc.VERIF, "findings", "*", "entry.json"))):
-        try:
-            with open(path) as f:
-                e = json.load(f)
-        except (OSError, ValueError):
-            continue
-        if e.get("status") == "open" and prop in e.get("properties", [e.get("property")]):
-            known.setdefault(e["id"], e)
-    return known
+    """Open findings of this property (known_findings.json)."""
+    return {k["id"]: k for k in core.load_known()
+            if k.get("status") == "open" and prop in k.get("properties", [k["property"]])}
 
 
 def generate_family(fam: str, cfg: str, workers: int, dest: str, timeout: int) -> dict:
@@ -174,11 +162,6 @@ def judge(rep: Report, prop: str, verdicts: List[dict], case_line: Dict[str, str
                                    "diff": fl.get("diff"), "replay": path})
     rep.extra["level_b_drift"] = drift or {"none": 0}
     rep.extra["exceptions_observed"] = excs or {"none": 0}
-    shared = {k["id"] for k in core.load_known()}
-    for kid in rep.known_matched:
-        if kid not in shared:
-            rep.notes.append(f"KNOWN-FINDING {kid} (findings/{kid}/entry.json, not yet in known_findings.json): "
-                             f"{known[kid].get('what', '')}")
     if drift:
         rep.notes.append(f"Level B (line-by-line model) differs from the observation in {sum(drift.values())} "
                          f"runs ({drift}); information only, Level A judged them")
